@@ -215,18 +215,31 @@ def run_property(prop, tier, rules, out=print, root=None, evdir=None, selfval=Tr
 
         orderdom.PACKAGE = repo
         ran = []
+        undecided = []
         for rid, tag, fn, title in rules:
             if tag == "P2" and tier != "thorough":
                 continue
             ctx.rule = rid
             before = len(ctx.obs)
-            fn(ctx)
-            n = len(ctx.obs) - before
-            if n == 0:
-                raise AnalysisError(
-                    f"{rid} ({title}) matched no site: the rule would pass vacuously"
-                )
+            try:
+                fn(ctx)
+                n = len(ctx.obs) - before
+                if n == 0:
+                    raise AnalysisError(
+                        f"{rid} ({title}) matched no site: the rule would pass vacuously"
+                    )
+            except AnalysisError as e:
+                # this rule could not be decided on this tree.  The other rules still run: a violation one of them
+                # establishes stands on its own (exit 1); without one the run is analysis-broken (exit 2), never a pass
+                del ctx.obs[before:]
+                undecided.append((rid, str(e)))
+                continue
             ran.append({"rule": rid, "title": title, "tier": tag, "obligations": n})
+        if undecided:
+            known_, _f = load_known()
+            fresh = [o for o in ctx.obs if not o.ok and (prop, o.key) not in known_]
+            if not fresh:
+                raise AnalysisError(undecided[0][1])
     except AnalysisError as e:
         out(f"ANALYSIS-ERROR property={prop} {e}")
         _write_evidence(evpath, prop, tier, seed, None, [], [], t0, error=str(e))
@@ -261,6 +274,8 @@ def run_property(prop, tier, rules, out=print, root=None, evdir=None, selfval=Tr
     )
     for o in kf:
         out(f"KNOWN-FINDING: property={prop} {o.key} :: {known[(prop, o.key)]}")
+    for rid, msg in undecided:
+        out(f"UNDECIDED rule={rid} {msg}")
     vdir = os.path.join(evdir, "violations")
     vpaths = []
     if viol:
